@@ -281,8 +281,16 @@ func (this *Dataset) PartitionBatchInsert(ctx context.Context, partitionId uuid.
 	if err := validateBatchItemIds(items); err != nil {
 		return nil, err
 	}
+	errors, checkedItems := this.checkBatchItemsDimension(items)
 
-	return partition.batchInsert(ctx, items)
+	errs, err := partition.batchInsert(ctx, checkedItems)
+	if err != nil {
+		return nil, err
+	}
+	for id, err := range errs {
+		errors[id] = err
+	}
+	return errors, nil
 }
 
 func (this *Dataset) BatchUpdate(ctx context.Context, items []*pb.BatchItem) (map[uuid.UUID]error, error) {
@@ -330,8 +338,16 @@ func (this *Dataset) PartitionBatchUpdate(ctx context.Context, partitionId uuid.
 	if err := validateBatchItemIds(items); err != nil {
 		return nil, err
 	}
+	errors, checkedItems := this.checkBatchItemsDimension(items)
 
-	return partition.batchUpdate(ctx, items)
+	errs, err := partition.batchUpdate(ctx, checkedItems)
+	if err != nil {
+		return nil, err
+	}
+	for id, err := range errs {
+		errors[id] = err
+	}
+	return errors, nil
 }
 
 func (this *Dataset) BatchRemove(ctx context.Context, items []*pb.BatchItem) (map[uuid.UUID]error, error) {
@@ -401,6 +417,10 @@ func (this *Dataset) Search(ctx context.Context, query math.Vector, k uint) (ind
 }
 
 func (this *Dataset) SearchPartitions(ctx context.Context, partitionIds []uuid.UUID, query math.Vector, k uint) (index.SearchResult, error) {
+	if err := this.checkDimension(&query); err != nil {
+		return nil, err
+	}
+
 	var err error
 	partitions := make([]*partition, len(partitionIds))
 	for i, partitionId := range partitionIds {
@@ -464,6 +484,20 @@ func (this *Dataset) getPartitionForId(id uuid.UUID) *partition {
 	defer this.partitionsMu.RUnlock()
 
 	return this.partitions[utils.UuidMod(id, uint64(this.Meta().GetPartitionCount()))]
+}
+
+func (this *Dataset) checkBatchItemsDimension(items []*pb.BatchItem) (map[uuid.UUID]error, []*pb.BatchItem) {
+	errors := make(map[uuid.UUID]error)
+	var checkedItems []*pb.BatchItem
+	for _, item := range items {
+		value := math.Vector(item.GetValue())
+		if err := this.checkDimension(&value); err != nil {
+			errors[uuid.FromBytesOrNil(item.GetId())] = err
+		} else {
+			checkedItems = append(checkedItems, item)
+		}
+	}
+	return errors, checkedItems
 }
 
 func (this *Dataset) checkDimension(value *math.Vector) error {
